@@ -457,6 +457,7 @@ func runC07(c *an.Ctx) {
 	ruleT6(c)
 	ruleTopoIndex(c, "T7")
 	ruleT8(c)
+	ruleT9(c)
 }
 
 func ruleT2(c *an.Ctx) {
